@@ -56,9 +56,10 @@ func c15Conf(ver string, ports []int, gslbAlt bool) *sys.DataConf {
 }
 
 func TestC15(t *testing.T) {
-	rec := ev.New("C15", "stress plans (2..6 client goroutines on keep-alive and fresh HTTP/1 connections, some requests held inside backends, 0..2 TLS clients whose handshakes use the default TLS rule; 1..3 reloader goroutines issuing generated sequences of server-data, gslb, TLS (alternating between rule files that differ in every default-rule field) and module-data reloads through the real reload entry points) against an in-process BFE built with the race detector. Each request is one case; non-trivial = its lifetime overlapped at least one reload (measured by timestamps). Oracle: no race report, every request is answered 200 by a backend of the cluster one single server-data version selects (a mixed snapshot yields 500), held requests complete")
+	rec := ev.New("C15", "stress plans (2..6 client goroutines on keep-alive and fresh HTTP/1 connections, some requests held inside backends, 0..2 TLS clients whose handshakes use the default TLS rule; 1..3 reloader goroutines issuing generated sequences of server-data, gslb, TLS (alternating between rule files that differ in every default-rule field) and module-data (trust table, GeoIP database) reloads and deliberately inconsistent gslb file sets that must be refused, through the real reload entry points) against an in-process BFE built with the race detector. Each request is one case; non-trivial = its lifetime overlapped at least one reload (measured by timestamps). Oracle: no race report, every request is answered 200 by a backend of the cluster one single server-data version selects (a mixed snapshot yields 500), held requests complete")
 	var ports []int
-	w := startWorld(t, 4, sys.Options{Modules: []string{"mod_trust_clientip", "mod_header"}}, func(p []int) *sys.DataConf {
+	w := startWorld(t, 4, sys.Options{Modules: []string{"mod_trust_clientip", "mod_header", "mod_geo"},
+		Files: map[string]string{"mod_geo/mod_geo.conf": "[basic]\nGeoDBPath = /repo/bfe_modules/mod_geo/test_data/mod_geo/geo.db\n"}}, func(p []int) *sys.DataConf {
 		ports = p
 		return c15Conf("A0", p, false)
 	})
@@ -74,6 +75,24 @@ func TestC15(t *testing.T) {
 		}
 		_ = i
 		verFiles = append(verFiles, fs)
+	}
+	// a file set the gslb reload must refuse: gslb.data names a cluster that cluster_table.data lacks
+	badFiles, err := w.rig.WriteVersion(c15Conf("A3", ports, false))
+	if err != nil {
+		t.Fatal(err)
+	}
+	{
+		raw, err := os.ReadFile(badFiles["gslb.data"])
+		if err != nil {
+			t.Fatal(err)
+		}
+		var g map[string]any
+		if err := json.Unmarshal(raw, &g); err != nil {
+			t.Fatal(err)
+		}
+		g["Clusters"].(map[string]any)["cghost"] = map[string]any{"cghost.s": 100}
+		out, _ := json.Marshal(g)
+		os.WriteFile(badFiles["gslb.data"], out, 0o644)
 	}
 	// two TLS rule files that differ in every default-rule field (used by handshakes that
 	// match neither a VIP nor an SNI rule)
@@ -113,7 +132,7 @@ func TestC15(t *testing.T) {
 		nReloaders := rapid.IntRange(1, 3).Draw(rt, "reloaders")
 		var plans [][]string
 		for r := 0; r < nReloaders; r++ {
-			plans = append(plans, rapid.SliceOfN(rapid.SampledFrom([]string{"server-data", "server-data", "gslb", "tls", "module", "server-data+gslb"}), 10, 40).Draw(rt, "plan"))
+			plans = append(plans, rapid.SliceOfN(rapid.SampledFrom([]string{"server-data", "server-data", "gslb", "tls", "module", "server-data+gslb", "geo", "gslb-refused"}), 10, 40).Draw(rt, "plan"))
 		}
 		perClient := rapid.IntRange(20, 60).Draw(rt, "requests-per-client")
 		holdEvery := rapid.IntRange(5, 20).Draw(rt, "hold-every")
@@ -158,6 +177,14 @@ func TestC15(t *testing.T) {
 						err = w.rig.Srv.TLSConfReload(q)
 					case "module":
 						err = w.rig.ReloadModule("mod_trust_clientip", "")
+					case "geo":
+						// swaps the memory-mapped GeoIP database requests look their client address up in
+						err = w.rig.ReloadModule("mod_geo", "")
+					case "gslb-refused":
+						// an inconsistent file set: the reload must fail and leave everything as it was
+						if e := w.rig.ReloadGslb(badFiles); e == nil {
+							err = fmt.Errorf("gslb reload accepted a gslb.data naming a cluster without backends")
+						}
 					}
 					if err != nil {
 						relErr.Store(fmt.Sprintf("%s reload failed: %v", kind, err))
